@@ -210,7 +210,7 @@ def rule_palette_total(ctx: Ctx, clause="C17.4") -> RuleResult:
                     continue
                 cfg = cfg or cfg_of(fi)
                 cn = nodes_where(cfg, lambda x, n=n: x is n)
-                tests = [t for t in cfg.nodes if t.kind == "test" and any(isinstance(c, ast.Compare) and isinstance(c.ops[0], ast.In) and ast.unparse(c.left) == ktxt and ast.unparse(c.comparators[0]) == ast.unparse(n.value) for c in ast.walk(t.ast))]
+                tests = [t for t in cfg.nodes if t.kind == "test" and any(isinstance(c, ast.Compare) and isinstance(c.ops[0], ast.In) and ast.unparse(c.left) == ktxt and ast.unparse(c.comparators[0]) in (ast.unparse(n.value), ast.unparse(n.value) + ".keys()") for c in ast.walk(t.ast))]
                 ok = any(all(x not in ExcEngine._reach_without_edge(cfg, t, "T") for x in cn) for t in tests)
                 rr.inst(f"{short(fi)}:{norm(n, 50)}", True, {"function": short(fi), "lookup": norm(n, 60), "total": "membership test" if ok else None} if len(rr.samples) < 5 else None)
                 if not ok:
@@ -541,6 +541,7 @@ _CM = "urwid/display/common.py"
 _RW = "urwid/display/_raw_display_base.py"
 _HT = "urwid/display/html_fragment.py"
 MUTANTS = [
+    Mut("twin-palette-lookup-keys", "urwid/display/_raw_display_base.py", "urwid.display._raw_display_base.Screen.draw_screen.<locals>.attr_to_escape", "            if a in self._pal_escape:\n", "            if a in self._pal_escape.keys():\n", twin=True),
     Mut("markup-empty-string-zero-run", "urwid/util.py", "_tagmarkup_recurse", "    return [tm], ([(attr, len(tm))] if tm else [])\n", "    return [tm], [(attr, len(tm))]\n", "RUNPOS|util._tagmarkup_recurse|run length len(tm) not shown positive"),
     Mut("twin-markup-empty-string-early-return", "urwid/util.py", "_tagmarkup_recurse", "    return [tm], ([(attr, len(tm))] if tm else [])\n", "    if not tm:\n        return [tm], []\n    return [tm], [(attr, len(tm))]\n", twin=True),
     Mut("large-h-bound-88", _CM, "BaseScreen.register_palette_entry", "int(part[1:], 10) > 15:", "int(part[1:], 10) > 87:", "SIB|display.common.BaseScreen.register_palette_entry.<locals>.large_h|large_h: bound 88"),
